@@ -203,6 +203,34 @@ def check_generated(case):
         if len(content) > header_end and not box_done:
             nt += 1
     n2, nt2, hist = enumerate_prefixes(data, complete, hist=hist)
+    # part-way through closing: with a declared count, close() after fewer records raises -
+    # what it leaves behind must not read as a system either
+    if case["declare"] and len(case["records"]) >= 2:
+        for k in sorted(set([1, len(case["records"]) - 1])):
+            short = dict(case, records=case["records"][:k])
+            fpath = env.fresh_path(".gro")
+            g = GroFile(fpath, "w")
+            try:
+                with env.quiet():
+                    if case["format"] is not None:
+                        g.position_format = (case["format"] + 5, case["format"])
+                    g.natoms = len(case["records"])
+                    for r in short["records"]:
+                        g.writeline(list(r))
+                    g.close()
+            except Exception:     # noqa: BLE001
+                pass
+            else:
+                raise PropertyViolation("close-count-mismatch", "close() accepted %d records for a declared count of %d"
+                                        % (k, len(case["records"])))
+            try:
+                g._file.close()
+            except Exception:     # noqa: BLE001
+                pass
+            kind, res = try_read(fpath)
+            judge(kind, res, True, complete, "failed-close after %d of %d declared records" % (k, len(case["records"])), hist)
+            n += 1
+            nt += 1
     return {"units": (n + n2, nt + nt2),
             "classes": ["declared" if case["declare"] else "backfilled", "vel" if case["vel"] else "novel",
                         "fmt:%s" % ("default" if case["format"] is None else "custom")] +
